@@ -115,6 +115,17 @@ def gen_c01(rnd, n, thorough=False):
                 lines.append("upd f %d %d %016x %d" % (rnd.pick([a, -1]), now - R, value(rnd, False), now))
                 written.append(now)
                 tags['ops']['lap_boundary'] = tags['ops'].get('lap_boundary', 0) + 1
+            elif r < 0.89 and a < k - 1:
+                # a batch of exactly ONE point that has just expired for this archive but not for the file (one
+                # lap behind a live slot): named archive -> dropped; best archive, age exactly the retention ->
+                # it belongs to the next coarser archive; either way the live slot keeps its value
+                lines.append("upd f %d %d %016x %d" % (a, now, value(rnd, False), now))
+                if rnd.chance(0.5):
+                    lines.append(_many('f', a, now, [(now - R - rnd.randint(0, max(S - 1, 0)), value(rnd, False))]))
+                else:
+                    lines.append(_many('f', -1, now, [(now - R, value(rnd, False))]))
+                written.append(now)
+                tags['ops']['single_expired_batch'] = tags['ops'].get('single_expired_batch', 0) + 1
             elif r < 0.93:
                 lines.append("sync f")
                 lines.append("open f")
@@ -375,6 +386,13 @@ def gen_c03(rnd, n, thorough=False):
                     tags['boundary_ages'] += 1
                 lines.append("upd f %d %d %016x %d" % (ident, max(now - age, 1), value(rnd, nan_ok), now))
                 tags['ops']['upd'] = tags['ops'].get('upd', 0) + 1
+                if ident >= 0 and rnd.chance(0.4):
+                    # the same timestamp once more through the same handle, this time routed by its age (every
+                    # call is routed on its own, whatever the call before it named)
+                    t_same = max(now - age, 1)
+                    now = now + rnd.pick([0, 0, 1, layout[0][0]])
+                    lines.append("upd f -1 %d %016x %d" % (t_same, value(rnd, nan_ok), now))
+                    tags['ops']['named_then_best'] = tags['ops'].get('named_then_best', 0) + 1
             else:
                 ident = rnd.pick([-1, -1] + list(range(k)))
                 cnt = rnd.pick([0, 1, 2, 3, 5, 8, 20 if thorough else 8])
@@ -427,6 +445,22 @@ def gen_c03(rnd, n, thorough=False):
                         tags['ops']['clock_back'] = tags['ops'].get('clock_back', 0) + 1
             _observe(rnd, lines, layout, list(range(k)), now, nwin=2)
         cases.append({'id': 'c03-%d' % c, 'lines': lines, 'tags': tags})
+    # seed-independent: a single update that names a coarser archive, then the same timestamp routed by age,
+    # through one handle (and once more after other calls in between that are not single updates)
+    for j, layout in enumerate([[(1, 60), (10, 60), (60, 60)], [(2, 5), (10, 6)]]):
+        now = 1700000000 + 60 * rnd.randint(0, 10 ** 4)
+        t = now - rnd.randint(1, layout[0][0] * layout[0][1] - 1)
+        lines = [_create('f', layout, 2, 0)]
+        lines.append("upd f %d %d %016x %d" % (len(layout) - 1, t, fbits(5.0), now))
+        lines.append("upd f -1 %d %016x %d" % (t, fbits(7.0), now))
+        for a in range(len(layout)):
+            lines.append("raw f %d" % a)
+        lines.append(_many('f', -1, now + 1, [(now, fbits(2.0))]))
+        lines.append("fetch f 0 %d %d %d" % (now - 10, now + 1, now + 1))
+        lines.append("upd f -1 %d %016x %d" % (t, fbits(9.0), now + 1))
+        for a in range(len(layout)):
+            lines += ["fetch f %d %d %d %d" % (a, now + 1 - layout[a][0] * layout[a][1], now + 1, now + 1), "raw f %d" % a]
+        cases.append({'id': 'c03-named-then-best-%d' % j, 'lines': lines, 'tags': {'layout': 'fixed', 'levels': len(layout), 'ops': {'named_then_best': 2}, 'boundary_ages': 0, 'stale_points': 0}})
     # one batch of more than 2^16 points (most of them too old): the result is that of the whole batch
     # sorted by time -- a point routed to the coarser archive and a finer point of the same coarse slot,
     # two points of one slot -- whatever lies between them in the caller's order
@@ -739,6 +773,21 @@ def gen_c05(rnd, n, thorough=False):
             _observe(rnd, lines, layout, list(range(k)), now, nwin=1)
             tags['ops']['unwritable'] = 1
         cases.append({'id': 'c05-%d' % c, 'lines': lines, 'tags': tags})
+    # slots that straddle a page boundary of the buffer (4096-byte pages, 12-byte slots behind a 28- or 40-byte
+    # header): each is written ALONE between two Syncs (nothing else touches the page its tail lies on), with values
+    # whose low mantissa bytes are not zero; after every Sync a fresh handle reads what the live handle reads
+    for j in range(2):
+        layout = [(1, 1100)] if j == 0 else [(1, 1400), (700, 4)]
+        hdr = 16 + 12 * len(layout)
+        straddlers = [q for q in range(layout[0][1]) if (hdr + 12 * q) // 4096 != (hdr + 12 * q + 11) // 4096]
+        t0 = 1700000000 + rnd.randint(0, 10 ** 5)
+        lines = [_create('f', layout, 2, 0x3f800000), "upd f 0 %d %016x %d" % (t0, fbits(1.0), t0), "sync f"]
+        for q in straddlers:
+            t = t0 + q
+            lines += ["upd f 0 %d %016x %d" % (t, fbits(rnd.pick([0.1, 1.0 / 3, 42.5 + 1e-9])), t), "sync f", "disk f",
+                      "dfetch f 0 %d %d %d" % (t - 5, t, t), "fetch f 0 %d %d %d" % (t - 5, t, t)]
+        lines += ["drop f", "open f", "fetch f 0 %d %d %d" % (t - layout[0][1] + 1, t, t), "raw f 0"]
+        cases.append({'id': 'c05-straddle-%d' % j, 'lines': lines, 'tags': {'layout': 'straddle', 'levels': len(layout), 'ops': {'page_straddling_slot': len(straddlers)}}})
     # one long-lived handle over a jump of the clock of more than 2^31 seconds (time differences no longer fit a
     # signed 32-bit duration), with writes that land on an archive's first slot again: after every Sync a fresh
     # handle reads what the live handle reads
